@@ -132,7 +132,7 @@ class PathStack(Bounded):
     """StackContext.push_path: after the with-block (normal or exceptional exit) the stack is what it was; every
     pushed path is recorded once in seen_paths; exports are refused at depth 1 and fresh per entry."""
     target = 'bfg9000/builtins/builtin.py::StackContext.push_path'
-    properties = ('C19',)
+    properties = ('C19', 'C08')
     reason = 'context-manager generator with try/finally: outside the subset'
 
     def native_inputs(self, case, alphabet, maxlen, rng, extra=0):
@@ -195,5 +195,180 @@ class PathStack(Bounded):
         return True
 
 
+# ---- whole script trees through the real configure pipeline (bounded) --------------------------------------------
+
+TREES = {
+    # name -> {script dir: [submodule() arguments, in call order]}
+    'chain2': {'': ['a'], 'a': []},
+    'chain3': {'': ['a'], 'a': ['b'], 'a/b': []},
+    'chain4': {'': ['a'], 'a': ['b'], 'a/b': ['c'], 'a/b/c': []},
+    'sibling-twice': {'': ['a', 'b'], 'a': ['../b'], 'b': []},
+    'parent-ref': {'': ['a'], 'a': ['../c'], 'c': ['d'], 'c/d': []},
+    'wide': {'': ['a', 'b'], 'a': [], 'b': ['x y'], 'b/x y': []},
+}
+OUTPUT_BUILTINS = {
+    # builtin -> script text producing `t` (an output file declared in the script's own directory)
+    'copy_file': "t = copy_file('in.txt')",
+    'build_step': "t = build_step('gen.txt', cmd=['touch', 'gen.txt'])",
+    'object_file': "t = object_file(file='in.c')",
+    'executable': "t = executable('prog', files=['in.c'])",
+    'static_library': "t = static_library('lb', files=['in.c'])",
+}
+
+
+def _norm(parent, ref):
+    import posixpath
+    return posixpath.normpath(posixpath.join(parent, ref)).lstrip('./') if posixpath.join(parent, ref) else ''
+
+
+def run_configure(files, extra_args):
+    """Real Environment + build.configure_build over a temporary source tree; returns env.trace."""
+    import os, shutil, tempfile, traceback
+    from bfg9000 import build
+    from bfg9000.environment import Environment
+    from bfg9000.path import InstallRoot, abspath
+    top = tempfile.mkdtemp(prefix='pyvc_scripts_')
+    try:
+        srcdir, builddir = os.path.join(top, 'src'), os.path.join(top, 'build')
+        os.makedirs(builddir)
+        for name, text in files.items():
+            fp = os.path.join(srcdir, name)
+            os.makedirs(os.path.dirname(fp), exist_ok=True)
+            with open(fp, 'w') as f:
+                f.write(text)
+        env = Environment(abspath(os.path.join(top, 'bfgdir')), None, None, abspath(srcdir), abspath(builddir))
+        env.finalize({InstallRoot.prefix: abspath(os.path.join(top, 'pre'))}, (False, False), False,
+                     extra_args=extra_args)
+        env.trace = []
+        try:
+            build.configure_build(env)
+        except BaseException:          # noqa
+            env.trace.append(('FAILED', traceback.format_exc(limit=-3)))
+        return env.trace
+    finally:
+        shutil.rmtree(top)
+
+
+class ScriptTree(Bounded):
+    """Trees of build.bfg / options.bfg scripts through the real configure_build: each script runs once per
+    submodule() call, in call order, in the context kind of its caller; what a script exports reaches exactly the
+    script that called it; no variable of one script is visible in another; input paths are relative to the script's
+    source directory and output paths to the matching build directory; arguments declared in nested options.bfg files
+    are usable and have the given values in every build script."""
+    native_chunk = 1
+    target = 'bfg9000/builtins/core.py::submodule'
+    properties = ('C19', 'C08')
+    reason = 'exec() of script text, context managers and the whole builtin layer: runtime contract only'
+
+    def cases(self):
+        return ['build', 'options', 'outputs']
+
+    def case_in_property(self, case, pid):
+        return case == 'build' if pid == 'C08' else True
+
+    def native_inputs(self, case, alphabet, maxlen, rng, extra=0):
+        if case == 'outputs':
+            for b in OUTPUT_BUILTINS:
+                for d in ('a', 'a/b'):
+                    yield {'builtin': b, 'dir': d}
+            return
+        for name in TREES:
+            yield {'tree': name}
+
+    @staticmethod
+    def expected(tree, d, acc):
+        """DFS in call order: (dir, [exports received per call])."""
+        idx = len(acc)
+        acc.append(None)
+        got = []
+        for ref in tree[d]:
+            child = _norm(d, ref)
+            ScriptTree.expected(tree, child, acc)
+            got.append({'from': child})
+        acc[idx] = (d, got)
+        return acc
+
+    def native_check(self, case, raw):
+        if case == 'outputs':
+            return self.check_outputs(case, raw)
+        tree = TREES[raw['tree']]
+        fname = 'build.bfg' if case == 'build' else 'options.bfg'
+        files = {}
+        visits = []
+        self.expected(tree, '', visits)
+        once = {d for d in tree if sum(1 for v in visits if v[0] == d) == 1}
+        for d, subs in tree.items():
+            var = 'v_' + ''.join(ch if ch.isalnum() else '_' for ch in d)
+            lines = ['%s = 1' % var, 'got = []']
+            for ref in subs:
+                lines.append('got.append(dict(submodule(%r)))' % ref)
+            others = [k for k in ('v_' + ''.join(ch if ch.isalnum() else '_' for ch in o) for o in tree) if k != var]
+            lines.append('leaked = sorted(set(%r) & set(globals()))' % others)
+            lines.append("src = relpath('in.txt')")
+            lines.append('env.trace.append((%r, %r, got, leaked, src.suffix, str(src.root)))' % (case, d))
+            if d:
+                lines.append('export(**{"from": %r})' % d)
+            if case == 'options' and d in once:      # declaring the same argument twice is (rightly) an error
+                lines.append('argument(%r, default="unset")' % ('arg-' + var.replace('_', '-')))
+            files[(d + '/' if d else '') + fname] = '\n'.join(lines) + '\n'
+            files[(d + '/' if d else '') + 'in.txt'] = ''
+        argv = []
+        if case == 'options':
+            # the build scripts only report the argument values they see
+            args = ['arg_' + 'v_' + ''.join(ch if ch.isalnum() else '_' for ch in d) for d in tree if d in once]
+            files['build.bfg'] = 'env.trace.append(("argv", {k: getattr(argv, k, None) for k in %r}))\n' % args
+            argv = ['--x-%s=%d' % (a.replace('_', '-'), i) for i, a in enumerate(args)]
+        trace = run_configure(files, argv)
+        if any(t[0] == 'FAILED' for t in trace):
+            return self.fail(case, raw, 'configure_succeeds', error=[t[1] for t in trace if t[0] == 'FAILED'][0][-600:])
+        want = []
+        self.expected(tree, '', want)
+        # scripts report when they *finish*: post-order of the expected DFS
+        def post(d, out):
+            for ref in tree[d]:
+                post(_norm(d, ref), out)
+            out.append(d)
+            return out
+        order = post('', [])
+        runs = [t for t in trace if t[0] == case]
+        if [t[1] for t in runs] != order:
+            return self.fail(case, raw, 'each_submodule_call_runs_the_callees_script_of_the_same_kind',
+                             ran=[t[1] for t in runs], expected=order)
+        for t in runs:
+            d = t[1]
+            exp_got = [{'from': _norm(d, ref)} for ref in tree[d]]
+            if t[2] != exp_got:
+                return self.fail(case, raw, 'exports_reach_exactly_the_caller', script=d, received=t[2], expected=exp_got)
+            if t[3]:
+                return self.fail(case, raw, 'no_variable_visible_in_another_script', script=d, leaked=t[3])
+            if (t[4], t[5]) != ((d + '/' if d else '') + 'in.txt', 'Root.srcdir'):
+                return self.fail(case, raw, 'input_path_relative_to_the_scripts_source_directory', script=d, path=t[4:6])
+        if case == 'options':
+            seen = [t for t in trace if t[0] == 'argv']
+            exp = {a: str(i) for i, a in enumerate(args)}
+            if len(seen) != 1 or seen[0][1] != exp:
+                return self.fail(case, raw, 'nested_arguments_have_the_configured_values', seen=seen, expected=exp)
+        return True
+
+    def check_outputs(self, case, raw):
+        b, d = raw['builtin'], raw['dir']
+        parts = d.split('/')
+        files = {'in.txt': '', 'in.c': ''}
+        for i in range(len(parts)):
+            here = '/'.join(parts[:i])
+            files[(here + '/' if here else '') + 'build.bfg'] = 'submodule(%r)\n' % parts[i]
+        files[d + '/in.txt'] = ''
+        files[d + '/in.c'] = 'int main() { return 0; }\n'
+        files[d + '/build.bfg'] = (OUTPUT_BUILTINS[b] + '\n' +
+                                   'env.trace.append(("out", t.path.suffix, str(t.path.root)))\n')
+        trace = run_configure(files, [])
+        if any(t[0] == 'FAILED' for t in trace):
+            return self.fail(case, raw, 'configure_succeeds', error=[t[1] for t in trace if t[0] == 'FAILED'][0][-600:])
+        out = [t for t in trace if t[0] == 'out']
+        if len(out) != 1 or out[0][2] != 'Root.builddir' or not out[0][1].startswith(d + '/'):
+            return self.fail(case, raw, 'output_path_in_the_matching_build_subdirectory', got=out)
+        return True
+
+
 def registry():
-    return [AddUserArgument(), ScriptGlobals(), UserArguments(), PathStack()]
+    return [AddUserArgument(), ScriptGlobals(), UserArguments(), PathStack(), ScriptTree()]
